@@ -461,15 +461,28 @@ def run(ctx):
         a, b = next(sp for sp in wspans if sp[0] <= acc < sp[1])
         work = work[:a] + work[b:]
         wspans = [(x, y) if y <= a else (x - (b - a), y - (b - a)) for (x, y) in wspans if (x, y) != (a, b)]
+    def corrupt(r):
+        if r.get("e") == "r" and r["res"]:
+            return dict(r, res=r["res"][:-1])
+        return None
+    demo = None
     if first_ok is not None:
-        def corrupt(r):
-            if r.get("e") == "r" and r["res"]:
-                return dict(r, res=r["res"][:-1])
-            return None
         for a, b in wspans:
             if any(corrupt(r) is not None for r in first_ok[a:b]) and not first_ok[a]["cfg"]["yor"]:
-                ctx.binding_demo("Trace_FillRequest", "Trace_FillRequest.cfg", first_ok[a:b], corrupt, limit=b - a)
+                demo = first_ok[a:b]
                 break
+    if demo is None:
+        # no fully accepted recorded scenario (defective tree): demonstrate the binding on the events of an
+        # exported behaviour
+        for rec in recs:
+            if rec["t"] == "fr" and not rec["cfg"]["yor"] and any(o["res"] for o in rec["h"]):
+                demo, nf = [{"e": "new", "cfg": rec["cfg"]}], 0
+                for o in rec["h"]:
+                    log = list(range(nf, o["nf"]))
+                    nf = o["nf"]
+                    demo.append({"e": "f", "log": log} if o["op"] == "f" else {"e": "r", "res": o["res"], "log": log})
+                break
+    ctx.binding_demo("Trace_FillRequest", "Trace_FillRequest.cfg", demo, corrupt, limit=len(demo))
     agg.report()
     return ctx.finish(
         rule="S2C: every fill/request schedule of the bounded model (all configurations x all call sequences of "
